@@ -132,6 +132,11 @@ func orderAndCopies(e *Env) {
 	// verbs with and without built-in handlers (PING is answered by the client
 	// itself, MODE/JOIN/TOPIC go through the tracker first)
 	pool := []string{"PRIVMSG", "NOTICE", "TOPIC", "372", "FOO", "PING", "MODE", "JOIN", "PONG", "INVITE"}
+	if c15 {
+		// a verb the server sends may be any word, also one the client uses as
+		// the name of an event of its own: such a line is an event like any other
+		pool = append(pool, "REGISTER")
+	}
 	for i := len(pool) - 1; i > 0; i-- {
 		j := g.Intn(i + 1)
 		pool[i], pool[j] = pool[j], pool[i]
@@ -317,6 +322,11 @@ func orderAndCopies(e *Env) {
 			yields := g.W(5, 2, 1) * 7
 			scribble := c15 || g.Pct(30)
 			h := client.HandlerFunc(func(c *client.Conn, l *client.Line) {
+				if l.Cmd == client.REGISTER && l.Raw == "" {
+					// the client's own event of that name, raised by Connect: not a
+					// line from the server and no part of the numbered stream
+					return
+				}
 				r := &invRec{h: id, seq: seqOf(l), set: "fg"}
 				if bg {
 					r.set = "bg"
@@ -446,6 +456,11 @@ func orderAndCopies(e *Env) {
 			if !c15 {
 				return
 			}
+			if l.Cmd == client.REGISTER && l.Raw != "" {
+				// a numbered line of the stream whose verb happens to be the name of
+				// a client event: the numbered handlers judge it
+				return
+			}
 			bareSeen++
 			e.Check()
 			if prev, dup := handedOut[l]; dup {
@@ -508,6 +523,9 @@ func orderAndCopies(e *Env) {
 					nh++
 					lateSeen[id] = map[int]int{}
 					c.HandleBG(evs[seqOf(l)].verb, client.HandlerFunc(func(c *client.Conn, l *client.Line) {
+						if l.Cmd == client.REGISTER && l.Raw == "" {
+							return
+						}
 						q := seqOf(l)
 						e.Check()
 						if q < 0 || q >= len(evs) {
@@ -604,6 +622,46 @@ func orderAndCopies(e *Env) {
 			}
 			pollErr = s.c.Connect()
 			pollDone = true
+		})
+	}
+	if !c15 && g.Pct(35) {
+		// meanwhile another goroutine of the application registers further
+		// foreground handlers for the verbs of the stream, and removes some of them
+		// again: the calls land anywhere in the event loop's dispatch of those very
+		// verbs.  Whatever is invoked is an invocation like the others: the next line
+		// waits for it
+		e.S.Count("probe.foreground-handlers-registered-from-another-task-during-the-stream")
+		nReg := g.Range(3, 14)
+		e.S.Spawn("registrar", func() {
+			var rms []client.Remover
+			for k := 0; k < nReg && !allSent && !causeBegun && !e.S.Failed(); k++ {
+				for i := e.S.Choose(40); i > 0; i-- {
+					simrt.Sleep(0)
+				}
+				if e.S.Choose(4) == 0 {
+					simrt.Sleep(time.Duration(e.S.Choose(2000)) * time.Microsecond)
+				}
+				if len(rms) > 0 && e.S.Choose(3) == 0 {
+					rms[len(rms)-1].Remove()
+					rms = rms[:len(rms)-1]
+					continue
+				}
+				id := nh
+				nh++
+				yields := e.S.Choose(3) * 9
+				rms = append(rms, s.c.HandleFunc(verbs[e.S.Choose(len(verbs))], func(c *client.Conn, l *client.Line) {
+					if l.Cmd == client.REGISTER && l.Raw == "" {
+						return
+					}
+					r := &invRec{h: id, seq: seqOf(l), set: "fg"}
+					r.enter = e.S.Stamp()
+					invs = append(invs, r)
+					for i := 0; i < yields; i++ {
+						simrt.Sleep(0)
+					}
+					r.exit = e.S.Stamp()
+				}))
+			}
 		})
 	}
 	if early == 1 {
@@ -971,6 +1029,35 @@ func misbehave(e *Env) {
 			}))
 		}
 	}
+	// one-shot handlers that go wrong: the first thing such a handler does is
+	// remove itself, then it panics.  It is still an invocation that panicked:
+	// the recovery function gets it, and nobody else suffers
+	oneShotAt := map[int]int{}
+	oneShots := 0
+	if g.Pct(35) {
+		for k := g.Range(1, 3); k > 0; k-- {
+			v, bg := verbs[g.Intn(2)], g.Bool()
+			var rm client.Remover
+			fired := false
+			fn := client.HandlerFunc(func(c *client.Conn, l *client.Line) {
+				if fired {
+					return // (a background invocation for the next event may have been started already)
+				}
+				fired = true
+				rm.Remove()
+				e.S.Count("fault.one-shot-handler-removes-itself-and-panics")
+				panicsHappened++
+				oneShots++
+				oneShotAt[seqOf(l)]++
+				panic(fmt.Sprintf("one-shot handler: removed, then boom at %d", seqOf(l)))
+			})
+			if bg {
+				rm = s.c.HandleBG(v, fn)
+			} else {
+				rm = s.c.Handle(v, fn)
+			}
+		}
+	}
 	earlyEnd := g.W(6, 2, 2) // 0 none, 1 Close from a task, 2 server EOF
 	endAfter := g.Intn(n + 1)
 	disconnected := false
@@ -1120,6 +1207,9 @@ func misbehave(e *Env) {
 				want[q]++
 			}
 		}
+		for q, k := range oneShotAt {
+			want[q] += k
+		}
 		got := map[int]int{}
 		for _, r := range recovered {
 			if r.cmd == "FOO" || r.cmd == "BAR" {
@@ -1141,8 +1231,8 @@ func misbehave(e *Env) {
 			}
 		}
 		e.Check()
-		if errs-errBefore < panicsPlanned {
-			e.Violation("panic-not-logged", "%d handler invocations panicked but the default recovery logged only %d errors", panicsPlanned, errs-errBefore)
+		if errs-errBefore < panicsPlanned+oneShots {
+			e.Violation("panic-not-logged", "%d handler invocations panicked but the default recovery logged only %d errors", panicsPlanned+oneShots, errs-errBefore)
 			return
 		}
 	}
